@@ -185,7 +185,13 @@ def work(item):
                 inv[t] = inv[t][::max(1, len(inv[t]) // 60)]
         sv = seedmod.seeds(name, 2 if quick else 10)
         # plain ASCII numbers as documented must come through clean() untouched (order and count of characters)
-        for s0, v0 in seedmod.seeds(name, 30):
+        probes = []
+        if name == 'stdnum.mx.rfc' or name == 'stdnum.isbn':
+            # ASCII text that looks like markup / escapes must stay as it is
+            probes = [p_ + b for p_ in '&%\\$#@' for b in ('#49;', 'amp;', 'lt;', 'nbsp;', '#x41;', 'GT', 'x', '49', 'ndash;', 'u0031', 'x31')]
+            probes += ['A&B1', 'P&GT850101AB1', '1&2', '&', '&&', '&;', '%31', '\\x31', '&#49', '&amp;#55;']
+        allseeds = [(a, b) for a, b in seedmod.seeds(name) if not (a + b).isalnum()][:200]
+        for s0, v0 in seedmod.seeds(name, 30) + allseeds + [(p_, p_) for p_ in probes]:
             for t in (s0, v0):
                 if t.isascii() and not any(c in img for c in t):
                     n += 1
